@@ -345,6 +345,7 @@ void slu_mt_verif_ev(int kind, long a, long b, long c) {
     vf_slot_event(kind, a, b, c);
     if (nth <= 1) return;
     pthread_mutex_lock(&big);
+    { static int tr_ = -1; if (tr_ < 0) tr_ = getenv("VF_TRACE") != NULL; if (tr_) fprintf(stderr, "ev t=%d kind=%d a=%ld b=%ld c=%ld pts=%d\n", me, kind, a, b, (kind == VE_SCHED_RET || kind == VE_RELEASE || kind == VE_COL_SUPER || kind == VE_NEWSUPER || kind == VE_PANEL_BEGIN || kind == VE_COL_BEGIN) ? c : 0L, npts); }
     evlog[nev % EVLOG].t = (short)me; evlog[nev % EVLOG].kind = (short)kind; evlog[nev % EVLOG].a = a; evlog[nev % EVLOG].b = b; evlog[nev % EVLOG].c = (kind == VE_SCHED_RET || kind == VE_RELEASE || kind == VE_READ_SN_BEGIN) ? c : 0; nev++;
     trace_hash = hmix_(trace_hash, ((unsigned long long)me << 56) ^ ((unsigned long long)kind << 48) ^ (unsigned long long)(a * 1315423911L + b * 2654435761L));
     switch (kind) {
